@@ -155,3 +155,34 @@ pub fn map_case_strategy(g: MapGen) -> BoxedStrategy<Case> {
         })
         .boxed()
 }
+
+pub struct TableGen {
+    pub prop: u64,
+    pub weights: &'static [(u16, u32)],
+    pub max_ops: usize,
+    pub generic_pct: u32,
+    pub plain_pct: u32,
+}
+
+pub fn table_case_strategy(g: TableGen) -> BoxedStrategy<Case> {
+    let TableGen { prop, weights, max_ops, generic_pct, plain_pct } = g;
+    let nh = prop_oneof![2 => Just(1u64), 2 => Just(2u64), 3 => Just(4u64), 3 => Just(16u64), 2 => Just(64u64)];
+    let u = prop_oneof![2 => Just(2u64), 3 => Just(6u64), 3 => Just(16u64), 1 => Just(64u64)];
+    (u, nh, plan_strategy(), cap_strategy(), 0u32..100, 0u32..100)
+        .prop_flat_map(move |(u, nh, plan, cap, be, el)| {
+            let ops = vec(ops_strategy(hbv::specs::TABLE_OPS, weights, u * nh), 0..max_ops);
+            ops.prop_map(move |ops| {
+                let mut c = Case::new("table");
+                c.set("prop", prop);
+                c.set("u", u);
+                c.set("nh", nh);
+                c.set("cap", cap);
+                c.set("backend", (be < generic_pct) as u64);
+                c.set("elem", (el < plain_pct) as u64);
+                set_plan(&mut c, "", plan);
+                c.ops = ops;
+                c
+            })
+        })
+        .boxed()
+}
